@@ -50,6 +50,7 @@ for f in sorted(os.listdir(os.path.join(V, "kani"))):
     for i, l in enumerate(lines):
         name = None
         tier = "quick"
+        heavy = False
         k = kind.group(1) if kind else "harness"
         fn = None
         mm = re.match(r"\s*inst(_t)?!\((\w+),\s*(\w+)", l)
@@ -68,10 +69,11 @@ for f in sorted(os.listdir(os.path.join(V, "kani"))):
                 fn = pc.group(1)
             if i > 0 and "TIER: thorough" in lines[i - 1]:
                 tier = "thorough"
+                heavy = "heavy" in lines[i - 1]
             if name and "$" in name:
                 name = None
         if name:
-            hs.append({"name": mod + "::" + name, "kind": k, "function": fn or name, "tags": harness_tags(fn or name) if not (fn and "::" in fn) else tags, "tier": tier, "bounded": bounded.group(1) if bounded else ""})
+            hs.append({"name": mod + "::" + name, "kind": k, "function": fn or name, "tags": harness_tags(fn or name) if not (fn and "::" in fn) else tags, "tier": tier, "heavy": heavy, "bounded": bounded.group(1) if bounded else ""})
     groups[g] = {"features": "alloc", "n": {"quick": int(nm.group(1)) if nm else 3, "thorough": int(nm.group(2)) if nm else 4},
                  "unwind_extra": int(ue.group(1)) if ue else 3, "timeout": {"quick": 2400, "thorough": 14000}, "harnesses": hs, "file": "kani/" + f}
 json.dump(groups, open(os.path.join(V, "kani", "groups.json"), "w"), indent=1)
